@@ -327,3 +327,26 @@ def concat_traps(names):
                 if ch == "_" and n[:i] in s and n[i + 1 :] in s:
                     out.add("join")
     return out
+
+
+def inject_derived_name_trap(rec, rng, forms=("is_value_defined_{}",)):
+    """Give an object (or, when no metric refers to actions, an action) the name a compiler would derive for a NEW fluent from
+    an existing numeric fluent (`is_value_defined_<f>` of UndefinedInitialNumericRemover): fresh names must avoid every
+    kind of name in the problem, not only the fluents. Returns the trapped names."""
+    used = {n for n, _ in rec["types"]} | {n for n, _ in rec["objects"]} | {f["name"] for f in rec["fluents"]} | {a["name"] for a in rec["actions"]}
+    nums = [f for f in rec["fluents"] if isinstance(f["type"], list) and f["type"][0] in ("int", "real")]
+    rng.shuffle(nums)
+    out = []
+    for f in nums[: rng.choice([1, 1, 2])]:
+        n = rng.choice(forms).format(f["name"])
+        if n in used:
+            continue
+        if rec["actions"] and not rec.get("metric") and rng.random() < 0.3:
+            rng.choice(rec["actions"])["name"] = n
+        elif rec["types"]:
+            rec["objects"].append([n, ["user", rng.choice(rec["types"])[0]]])
+        else:
+            continue
+        used.add(n)
+        out.append(n)
+    return out
